@@ -247,7 +247,7 @@ func randIP(r *gen.Rand) net.IP {
 // step applies one random building operation. Returns false to stop the sequence.
 func (s *c03State) step() bool {
 	r, m := s.r, s.m
-	switch r.Intn(22) {
+	switch r.Intn(23) {
 	case 0, 1, 2, 3: // Add
 		t := r.AttrType()
 		n := r.ValueLen(3000)
@@ -568,6 +568,22 @@ func (s *c03State) step() bool {
 			return false
 		}
 		s.method, s.class, s.tid, s.attrs, s.lead, s.trail, s.aliasAdded = newMethod, newClass, newTID, newAttrs, 0, false, alias
+	case 21: // edit the attribute list in the struct, then Encode (the documented way to build from fields)
+		keep := r.Intn(len(s.attrs) + 1)
+		s.op(fmt.Sprintf("Attributes=Attributes[:%d];Encode", keep))
+		m.Attributes = m.Attributes[:keep]
+		s.attrs = s.attrs[:keep]
+		m.Encode()
+		s.lead, s.trail = 0, false
+		for i := range s.attrs {
+			s.attrs[i].built = true
+			s.attrs[i].wire = s.attrs[i].typ
+		}
+		if want := s.canonical(); !bytes.Equal(m.Raw, want) {
+			s.fail("not-canonical", fmt.Sprintf("Encode after truncating Attributes produced bytes that differ from the reference encoding (header length %d, %d bytes)", int(m.Raw[2])<<8|int(m.Raw[3]), len(m.Raw)))
+
+			return false
+		}
 	default: // WriteLength / WriteType / WriteTransactionID are idempotent on a consistent message
 		s.op("WriteLength+WriteTransactionID")
 		m.WriteLength()
